@@ -386,6 +386,19 @@ func (r *rw) walk(n ast.Node) {
 		case *ast.CommClause:
 			x.Body = r.rewriteList(x.Body)
 		case *ast.CallExpr:
+			// R13: Pebble's invariants builds disable seek / bounds optimisations
+			// "at random" by hashing the ADDRESS of the iterator
+			// (testingDisableSeekOpt(key, uintptr(unsafe.Pointer(i)))): addresses
+			// differ from process to process, so the same seed took different
+			// paths. The address argument becomes a draw from the run's PRNG
+			// (skipping an optimisation is always legal, whoever decides it).
+			if id, ok := x.Fun.(*ast.Ident); ok && len(x.Args) == 2 &&
+				(id.Name == "testingDisableSeekOpt" || id.Name == "testingDisableBoundsOpt") {
+				x.Args[1] = &ast.CallExpr{Fun: ast.NewIdent("uintptr"), Args: []ast.Expr{
+					&ast.CallExpr{Fun: &ast.SelectorExpr{X: ast.NewIdent("simrt"), Sel: ast.NewIdent("DetWord")}}}}
+				r.useSim, r.changed = true, true
+				stats["detaddr"]++
+			}
 			if sel, ok := x.Fun.(*ast.SelectorExpr); ok {
 				if id, ok := sel.X.(*ast.Ident); ok {
 					if obj, ok := r.pkg.TypesInfo.Uses[id].(*types.PkgName); ok {
@@ -525,7 +538,7 @@ func main() {
 			if !r.changed {
 				continue
 			}
-			for _, path := range []string{"runtime", "time"} {
+			for _, path := range []string{"runtime", "time", "unsafe"} {
 				if !astutil.UsesImport(f, path) {
 					astutil.DeleteImport(p.Fset, f, path)
 				}
